@@ -58,14 +58,14 @@ CHECKS = {
     "C08": dict(
         level="model_checking",
         technique="exhaustive program enumeration x initial contexts on the real HashMapContext, and deviation-bounded depth-first exploration of environment answers (scripted Context) per program, against a reference interpreter incl. the ordered trace of context interactions",
-        text="All programs up to 3 operator nodes over an effectful alphabet (assignments, op-assigns, recording and failing calls, failing atoms, tuples, chains) in 3 contexts, and per program every script of context answers with up to 2 deviations (unbound / wrong-type reads, failing / missing / substituted functions, failing / lossy writes). Result, final variables, call log and the exact interaction sequence are compared, so reordered, repeated, skipped or rolled-back evaluation steps are all visible.",
-        note="Trusted: the reference interpreter. Not compared: an op-assign whose right-hand side assigns to its own target (two documented readings).",
+        text="All programs up to 3 operator nodes over an effectful alphabet (assignments, op-assigns, recording calls, a failing user function that shadows a builtin, failing atoms, an operator with a missing operand, tuples, chains) in 3 contexts, and per program every script of context answers with up to 2 deviations (unbound / wrong-type reads, failing / missing / substituted functions, failing / lossy writes). Result, final variables, call log and the exact interaction sequence are compared, so reordered, repeated, skipped or rolled-back evaluation steps are all visible.",
+        note="Trusted: the reference interpreter. The scripted axis reads 'exactly once' as: one context interaction per variable read, call and write. Not compared: an op-assign whose right-hand side assigns to its own target (two documented readings).",
         design_ref="DESIGN.md section 4, C08",
     ),
     "C09": dict(
         level="model_checking",
         technique="explicit enumeration of all configuration histories (switch / clone / clear / define) up to a depth from an empty context x 52 names x 15 call forms, against a reference resolution model",
-        text="For every builtin name and three non-builtin names, every history of up to 4 (quick) / 6 (thorough) operations over disable, enable, clone, clear_functions, clear_variables, define function, bind variable, plus the two fixed-policy contexts; 15 call forms evaluated in each configuration, with the user function recording its argument. The configuration matrix is finite and is enumerated completely (guarded: all 8 switch x function x variable combinations reached for every name).",
+        text="For every builtin name and three non-builtin names, every history of up to 4 (quick) / 5 (thorough) operations over disable, enable, clone, clone_from, clear_functions, clear_variables, define function, define failing function, bind variable, plus the two fixed-policy contexts; 15 call forms evaluated in each configuration, with the user function recording its argument. The configuration matrix is finite and is enumerated completely (guarded: all 8 switch x function x variable combinations reached for every name).",
         note="Trusted: reference resolution order (context function, then builtin if enabled, else unknown) and the C10 builtin table for builtin results.",
         design_ref="DESIGN.md section 4, C09",
     ),
@@ -85,8 +85,8 @@ CHECKS = {
     ),
     "C12": dict(
         level="model_checking",
-        technique="exhaustive enumeration of token sequences x 10 contexts x all 48 entry points + build_operator_tree; each typed result compared with the projection of the untyped one, tree level with string level, context-free with fresh context, repeated runs",
-        text="Every token sequence up to 4 (quick) / 5 (thorough) tokens over an alphabet reaching all six result types and every error stage, in 10 contexts, through all 24 string-level entry points (twice), all 24 Node methods and build_operator_tree. A copy-paste slip in any wrapper shows on the first input whose untyped result distinguishes it; all value types and errors occur (guarded).",
+        technique="exhaustive enumeration of token sequences x 11 contexts x all 48 entry points + build_operator_tree; each typed result compared with the projection of the untyped one, tree level with string level, context-free with fresh context, repeated runs",
+        text="Every token sequence up to 4 (quick) / 5 (thorough) tokens over an alphabet reaching all six result types and every error stage, in 11 contexts, through all 24 string-level entry points (twice), all 24 Node methods and build_operator_tree. A copy-paste slip in any wrapper shows on the first input whose untyped result distinguishes it; all value types and errors occur (guarded).",
         note="Trusted: the projection rules written from the property statement.",
         design_ref="DESIGN.md section 4, C12",
     ),
@@ -107,7 +107,7 @@ CHECKS = {
     "C15": dict(
         level="model_checking",
         technique="stateless exploration of thread interleavings with iterative preemption bounding (own baton scheduler over real OS threads, scheduling points in harness-owned user functions); Send+Sync half decided by the type checker in a probe crate",
-        text="9 workloads of 2-3 threads sharing one Arc<Node> and one Arc<HashMapContext> (same tree, different trees, failing and succeeding evaluations mixed, string-level evaluation, per-thread mutable clones, clone/format/iterate while evaluating); every schedule with up to 2 preemptions (quick), up to 3 and unbounded for 2 threads (thorough); each thread's result and own call log must equal its sequential run. The compile probe instantiates Send + Sync for the 8 public types.",
+        text="13 workloads of 2-5 threads sharing one Arc<Node> and one Arc<HashMapContext>, built afresh for every execution (same tree, trees of nesting depth 50-100, different trees, failing and succeeding evaluations mixed, alternating user functions, string-level evaluation, per-thread mutable clones, clone/format/iterate while evaluating); every schedule with up to 2 preemptions (quick), up to 3 and unbounded for 2 threads (thorough); each thread's result and own call log must equal its sequential run. The compile probe instantiates Send + Sync for the 8 public types.",
         note="Trusted: #![forbid(unsafe_code)] (asserted) for the absence of data races proper; races whose window contains no scheduling point and weak-memory effects are not explored. loom/shuttle are not used: evalexpr contains no sync primitive to intercept and both would make correct thread-local state look racy.",
         design_ref="DESIGN.md section 4, C15",
     ),
